@@ -359,6 +359,13 @@ def execute(program, ctx, mode):
             I.setTaggedValue('invariants', [] if h64(lbl, 'inv-list') % 2 else ())
             inv_tagged.add(lbl)
             ctx.probe('empty-invariants-collection')
+        if d and h64(program.get('seed') or 0, lbl, 'caller-reuses-the-attribute-dict') % 3 == 0:
+            # the caller built the interface from a template dictionary it keeps, and goes on editing it (the next interface of
+            # a family): nothing of that may reach the interface, before or after its first lookups
+            I.get(sorted(d)[0])
+            d.clear()
+            d['zz'] = Attribute('zz')
+            ctx.probe('attribute-dict-edited-by-the-caller-afterwards')
         reg(lbl, I, 'I', mb)
         if spy_world:
             spy = AttrSpy(lbl, I)
